@@ -1,7 +1,7 @@
 (** Correspondence evaluators for C13: run the model on the inputs the
     harness fed to the implementation and compare with what it observed. *)
 From Coq Require Import List NArith ZArith Bool String.
-From Verif Require Import Lib.Bytes Sni.Wire Sni.WireGenDefs Gen.WireSchema.
+From Verif Require Import Lib.Bytes Sni.Wire Sni.WireChunks Sni.WireReader Sni.WireGenDefs Gen.WireSchema.
 Import ListNotations.
 Local Open Scope N_scope.
 
@@ -30,13 +30,54 @@ Definition rep (b n : N) : bytes := repN b (N.to_nat n).
 Definition kinds_match (sch : schema) (vs : list value) : bool :=
   (List.length sch =? List.length vs)%nat.
 
+(** * Reader behaviours (round 3)
+
+    How the harness's reader delivered the input, as a [reader] of
+    Sni/WireChunks.v: 0 everything at once, EOF on the next call; 1 one byte
+    per Read; 2 short reads (three bytes at a time); 3 everything at once
+    TOGETHER with io.EOF; 4 zero-length reads in between; 5 at most seven
+    bytes per Read; 6 one byte per Read, the last one together with io.EOF.
+    By Sni/WireReader.v the result cannot depend on it; the evaluation below
+    runs the reader-based model all the same, so that the reader behaviour
+    is part of the replayed case. *)
+Fixpoint chunks_of (fuel k : nat) (b : bytes) : list bytes :=
+  match fuel with
+  | O => [b]
+  | S f => match b with
+           | [] => []
+           | _ => firstn k b :: chunks_of f k (skipn k b)
+           end
+  end.
+
+Definition mk_reader (shape : N) (input : bytes) : reader N :=
+  let n := List.length input in
+  match shape with
+  | 1 => mkR N (map (fun x => [x]) input) false
+  | 2 => mkR N (chunks_of n 3 input) false
+  | 3 => mkR N [input] true
+  | 4 => mkR N ([] :: firstn (n / 2) input :: [] :: [] :: skipn (n / 2) input :: [[]]) false
+  | 5 => mkR N (chunks_of n 7 input) false
+  | 6 => mkR N (map (fun x => [x]) input) true
+  | _ => mkR N [input] false
+  end.
+
 Inductive ccase :=
+| CDecS (shape : N) (name : string) (cap : N) (do_end : bool) (input : bytes)
+        (exp_err exp_count : N) (exp_fields : list value) (impl_alloc : N)
+| CStartS (shape : N) (input : bytes) (exp_err : N) (exp_id exp_typ : N) (exp_name : string)
+          (exp_fields : list value) (impl_alloc : N)
 | CEnc (name : string) (fields : list value) (expect : bytes)
 | CEncReply (id typ ec : N) (name : string) (fields : list value) (expect : bytes)
 | CDec (name : string) (cap : N) (do_end : bool) (input : bytes)
        (exp_err exp_count : N) (exp_fields : list value) (impl_alloc : N)
 | CStart (input : bytes) (exp_err : N) (exp_id exp_typ : N) (exp_name : string)
          (exp_fields : list value) (impl_alloc : N)
+| CReal (typ : N) (sent_name : string) (sent : list value)      (* the call the client was asked to make *)
+        (input : bytes)                                          (* the frame the peer received from the real client *)
+        (exp_err exp_id exp_typ : N) (exp_name : string) (exp_fields : list value) (impl_alloc : N)
+                                                                 (* ... through the real startCall *)
+        (rname : string) (cap : N) (reply : bytes)               (* the reply frame the peer sent *)
+        (exp_rerr : N) (exp_rfields : list value)                (* what the caller got: 0 ok, 1 eof, 3 overflow, 5 no answer *)
 | CHRead (maxRead : Z) (avail : N) (exp_crash : bool) (exp_n exp_code : N)
 | CTRead (buflen replylen : N) (exp_ok : bool) (exp_n : N).
 
@@ -49,6 +90,28 @@ Definition err_read_code : N :=
 Definition check_case_with (schs : list (string * schema)) (tbl : request_table)
   (c : ccase) : bool :=
   match c with
+  | CDecS shape name cap do_end input exp_err exp_count exp_fields impl_alloc =>
+      match assoc_str name schs with
+      | Some sch =>
+          let '(vs, s) := rdec_schema gen_alloc_max cap sch (rinit (mk_reader shape input)) in
+          let d := abs (if do_end then rd_end s else s) in
+          (err_code (err d) =? exp_err) && (cnt d =? exp_count) &&
+          (if exp_err =? 0 then list_eqb value_eqb vs exp_fields else true) &&
+          alloc_agrees impl_alloc (alloc d) (lenN input)
+      | None => false
+      end
+  | CStartS shape input exp_err exp_id exp_typ exp_name exp_fields impl_alloc =>
+      let '(r, s) := rstart_call gen_alloc_max tbl (mk_reader shape input) in
+      alloc_agrees impl_alloc (rs_alloc s) (lenN input) &&
+      match r with
+      | CErr e => err_code (Some e) =? exp_err
+      | CUnknown id t =>
+          (exp_err =? 0) && (id =? exp_id) && (t =? exp_typ) &&
+          String.eqb exp_name "" && list_eqb value_eqb [] exp_fields
+      | CReq id t name vs =>
+          (exp_err =? 0) && (id =? exp_id) && (t =? exp_typ) &&
+          String.eqb exp_name name && list_eqb value_eqb vs exp_fields
+      end
   | CEnc name vs expect =>
       match assoc_str name schs with
       | Some sch => kinds_match sch vs && bytes_eqb (enc_schema sch vs) expect
@@ -82,6 +145,44 @@ Definition check_case_with (schs : list (string * schema)) (tbl : request_table)
       | CReq id t name vs =>
           (exp_err =? 0) && (id =? exp_id) && (t =? exp_typ) &&
           String.eqb exp_name name && list_eqb value_eqb vs exp_fields
+      end
+  | CReal typ sent_name sent input exp_err exp_id exp_typ exp_name exp_fields impl_alloc rname cap reply
+          exp_rerr exp_rfields =>
+      (* the client put exactly the modelled request frame on the wire (first call: id 0) *)
+      match assoc_str sent_name schs with
+      | Some sch => kinds_match sch sent && bytes_eqb (request_frame 0 typ (enc_schema sch sent)) input
+      | None => false
+      end &&
+      (* the server entry reads it back *)
+      (let '(r, d) := start_call gen_alloc_max tbl input in
+       alloc_agrees impl_alloc (alloc d) (lenN input) &&
+       match r with
+       | CErr e => err_code (Some e) =? exp_err
+       | CUnknown id t =>
+           (exp_err =? 0) && (id =? exp_id) && (t =? exp_typ) &&
+           String.eqb exp_name "" && list_eqb value_eqb [] exp_fields
+       | CReq id t name vs =>
+           (exp_err =? 0) && (id =? exp_id) && (t =? exp_typ) &&
+           String.eqb exp_name name && list_eqb value_eqb vs exp_fields
+       end) &&
+      (* the caller gets what the client-side decode of the reply frame gives
+         (rname "": the caller was one of the package's own call sites, whose results the oracle reads) *)
+      if String.eqb rname "" then true else
+      match assoc_str rname schs with
+      | Some rsch =>
+          match client_decode gen_alloc_max cap rsch reply with
+          | (HReply _ _, Some (vs, d)) =>
+              match err d with
+              | None => (exp_rerr =? 0) && list_eqb value_eqb vs exp_rfields
+              | Some EEof => exp_rerr =? 1
+              | Some ETooLong => exp_rerr =? 3
+              | Some _ => false
+              end
+          | (HRemoteError _, _) => exp_rerr =? 1      (* the transport ends; the call is completed with eof *)
+          | (HShort _, _) => exp_rerr =? 5            (* logged and ignored: no answer *)
+          | (HReply _ _, None) => false
+          end
+      | None => false
       end
   | CHRead maxRead avail exp_crash exp_n exp_code =>
       match handle_read gen_max_read_size maxRead avail with
